@@ -59,7 +59,7 @@ static void calculate_ziggurat(void)
         struct layer cand;
         cand.tgt_area = 0.5 / ARRSIZE;
         cand.x0 = 0.0;
-        cand.y0 = yarr[i-1];
+        cand.y0 = (i > 0) ? yarr[i-1] : 0.0;
 
         double xmid;
         /* Search for the next layer upper-right corner, ensuring that the
@@ -128,7 +128,7 @@ static void calculate_ziggurat(void)
                 }
             }
 
-            acum += area[i] + (xarr[i] - 0.0) * (yarr[i] - yarr[i-1]);
+            acum += area[i] + (xarr[i] - 0.0) * (yarr[i] - cand.y0);
 
             /* Make ready for the next layer */
             xlcand = xarr[i] / 1.2;
